@@ -408,12 +408,12 @@ def shards(tier):
 
 
 def run_shard(spec, ctx):
+    # measured single-process cost per case (two renders): esc ~12.5 ms, stmt ~12 ms, tset ~10 ms
     rec = core.Rec()
-    core.hyp_shard(esc_cases(ctx.pick(14, 20)), check_case, ctx, c15.scale(ctx.pick(450, 6000)), rec=rec, tag="esc")
-    if not rec.violations:
-        core.hyp_shard(stmt_cases(not ctx.quick), check_case, ctx, c15.scale(ctx.pick(500, 8000)), rec=rec, tag="stmt")
-    if not rec.violations:
-        core.hyp_shard(tset_cases(not ctx.quick), check_case, ctx, c15.scale(ctx.pick(300, 5000)), rec=rec, tag="tset")
+    # (16 parallel workers cost about twice that; quick = 16 x (450 + 450 + 250) cases)
+    c15.batches(esc_cases(ctx.pick(14, 20)), check_case, ctx, c15.scale(ctx.pick(450, 5000)), rec, "esc")
+    c15.batches(stmt_cases(not ctx.quick), check_case, ctx, c15.scale(ctx.pick(450, 5000)), rec, "stmt")
+    c15.batches(tset_cases(not ctx.quick), check_case, ctx, c15.scale(ctx.pick(250, 3000)), rec, "tset")
     return rec
 
 
